@@ -50,6 +50,7 @@ func runCtxLock(t *testing.T, c ctxCase) (out ctxOutcome, err error) {
 			holding  string // "" | "w" | "r"
 			waiting  string // "" | "w" | "r" (call in progress)
 			cancel   context.CancelFunc
+			ctx      context.Context
 			result   error
 			returned bool
 		}
@@ -77,7 +78,7 @@ func runCtxLock(t *testing.T, c ctxCase) (out ctxOutcome, err error) {
 				if s.result == nil {
 					s.holding = kind
 					out.blockedThenGranted = true
-				} else if !errors.Is(s.result, context.Canceled) {
+				} else if s.ctx == nil || s.ctx.Err() == nil || !errors.Is(s.result, s.ctx.Err()) {
 					errs.Failf("after %s: w%d's acquisition failed with %v (not its context's error)", step, w, s.result)
 					return false
 				}
@@ -121,7 +122,7 @@ func runCtxLock(t *testing.T, c ctxCase) (out ctxOutcome, err error) {
 						ctx, cancel = context.WithDeadline(context.Background(), time.Now().Add(-time.Second))
 					}
 				}
-				s.cancel = cancel
+				s.cancel, s.ctx = cancel, ctx
 				if o.Pre {
 					cancel()
 					out.preCancelled = true
